@@ -398,14 +398,16 @@ DFloatSprint(String buf, DFloat d)
 	if (cmdFloatRepFlag) {
 		if (d == 0.0)
 			/*ugly hack to fix output of 0.0 under windows*/
-			sprintf(buf, "0.0000000000000000");
+			sprintf(buf, "%s0.0000000000000000",
+				signbit(d) ? "-" : "");
 		else
 			sprintf(buf, "%#.*g", DBL_DIG, d);
 	} else {
 #if 1
 		if (d == 0.0)
 			/*ugly hack to fix output of 0.0 under windows*/
-			sprintf(buf, "0.0000000000000000");
+			sprintf(buf, "%s0.0000000000000000",
+				signbit(d) ? "-" : "");
 		else
 			sprintf(buf, "%#.*g", DBL_DIG+2, d);
 #else
